@@ -263,7 +263,7 @@ void botpTOTPStepR(char* otp, tm_time_t t, void* state)
 	botp_totp_st* st = (botp_totp_st*)state;
 	// pre
 	ASSERT(t != TIME_ERR);
-	ASSERT(memIsDisjoint2(otp, st->digit + 1, state, botpHOTP_keep()) || 
+	ASSERT(memIsDisjoint2(otp, st->digit + 1, state, botpTOTP_keep()) || 
 		otp == st->otp);
 	// вычислить имитовставку
 	memCopy(st->stack, st->stack + beltHMAC_keep(), beltHMAC_keep());
@@ -528,7 +528,7 @@ void botpOCRAStepS(void* state, const octet ctr[8], const octet p[],
 	// загрузить s
 	if (st->s_len)
 	{
-		ASSERT(memIsDisjoint2(p, st->s_len, s, botpOCRA_keep()) || s == st->s);
+		ASSERT(memIsDisjoint2(s, st->s_len, st, botpOCRA_keep()) || s == st->s);
 		memMove(st->s, s, st->s_len);
 	}
 }
@@ -541,8 +541,8 @@ void botpOCRAStepR(char* otp, const octet q[], size_t q_len, tm_time_t t,
 	ASSERT(memIsDisjoint2(otp, st->digit + 1, state, botpOCRA_keep()) || 
 		otp == st->otp);
 	ASSERT(4 <= q_len && q_len <= 2 * st->q_max);
-	ASSERT(memIsDisjoint2(q, q_len, state, botpOCRA_keep() || q == st->q));
-	ASSERT(t != TIME_ERR);
+	ASSERT(memIsDisjoint2(q, q_len, state, botpOCRA_keep()) || q == st->q);
+	ASSERT(!st->ts || t != TIME_ERR);
 	// вычислить имитовставку
 	memCopy(st->stack, st->stack + beltHMAC_keep(), beltHMAC_keep());
 	if (st->ctr_len)
